@@ -313,6 +313,8 @@ class Interp:
             ga = self.find_method(obj.cls, "__getattr__")
             if ga is not None and name not in ("__getattr__",):
                 return self.call_repo(ga, [obj, Str(py=name)], {})
+            if getattr(obj, "partial", False):
+                raise Unsupported(f"attribute '{name}' of a contract-built {obj.cls.name} object is not described by the contract")
             raise PyRaise("AttributeError", f"'{obj.cls.name}' object has no attribute '{name}'")
         if isinstance(obj, ClassRef):
             m = self.find_method(obj.cls, name)
@@ -330,7 +332,7 @@ class Interp:
             if name in obj.methods:
                 self.stats.setdefault("stub_methods", set()).add(f"{obj.name}.{name}")
                 return LibCallable(f"{obj.name}.{name}", obj.methods[name])
-            raise PyRaise("AttributeError", f"'{obj.name}' object has no attribute '{name}'")
+            raise Unsupported(f"attribute '{name}' of the stub object {obj.name} is not described by the contract")
         if isinstance(obj, SuperProxy):
             o = obj.obj
             cls = o.cls if isinstance(o, Obj) else o.cls
@@ -407,6 +409,7 @@ class Interp:
             self.stats["contracts_applied"].append(key)
             return self.contracts[key].apply(self, cls, args, kwargs)
         obj = Obj(cls)
+        obj.partial = False
         init = self.find_method(cls, "__init__")
         if init is not None:
             self.call_repo(init, [obj] + list(args), kwargs)
